@@ -15,31 +15,50 @@ Definition acts_stored (stored : list root) (acts : list action) : bool :=
 
 (** * one step of the replay on a table that equals the caller's list *)
 
-Lemma replay_append stored l r rest :
-  store_replay stored (tbl_of l) l (Append r :: rest) None =
-  if mem r stored then store_replay stored (tbl_of (l ++ [r])) (l ++ [r]) rest None else Err EOther.
+Lemma replay_append stored l ns r rest :
+  store_replay stored (tbl_of l) l ns (Append r :: rest) None =
+  if mem r stored then store_replay stored (tbl_of (l ++ [r])) (l ++ [r]) (ns + 1) rest None else Err EOther.
 Proof.
   cbn [store_replay mbind stmt]. unfold append_sector.
   destruct (mem r stored); cbn [negb mbind lift]; [|reflexivity].
   rewrite tins_of_end. reflexivity.
 Qed.
 
-Lemma replay_trim stored l n rest : n <= nlen l ->
-  store_replay stored (tbl_of l) l (Trim n :: rest) None =
-  store_replay stored (tbl_of (trim_roots l n)) (trim_roots l n) rest None.
+Lemma dec_stat_ok ns n : n <= ns -> dec_stat ns n = Ok (ns - n).
 Proof.
-  intros H. cbn [store_replay mbind stmt].
+  intros H. unfold dec_stat. destruct (n =? 0) eqn:E; [f_equal; lia|].
+  replace (ns <? n) with false by lia. reflexivity.
+Qed.
+
+Lemma replay_trim stored l ns n rest : n <= nlen l -> nlen l <= ns ->
+  store_replay stored (tbl_of l) l ns (Trim n :: rest) None =
+  store_replay stored (tbl_of (trim_roots l n)) (trim_roots l n) (ns - n) rest None.
+Proof.
+  intros H Hns. cbn [store_replay mbind stmt].
   replace (nlen l <? n) with false by lia.
   rewrite trim_sectors_of by exact H. cbn [mbind lift].
+  rewrite dec_stat_ok by lia. cbn [mbind lift].
   rewrite list_eqb_refl. reflexivity.
 Qed.
 
 Lemma nlen_set_root l i r : nlen (set_root l i r) = nlen l.
 Proof. unfold nlen, set_root; now rewrite length_set_nth. Qed.
 
-Lemma replay_update stored l r i rest : i < nlen l ->
-  store_replay stored (tbl_of l) l (Update r i :: rest) None =
-  if mem r stored then store_replay stored (tbl_of (set_root l i r)) (set_root l i r) rest None
+Lemma nlen_swap_roots l a b : nlen (swap_roots l a b) = nlen l.
+Proof. unfold swap_roots. now rewrite !nlen_set_root. Qed.
+
+Lemma nlen_trim_roots l n : n <= nlen l -> nlen (trim_roots l n) = nlen l - n.
+Proof. intros H. unfold trim_roots, nlen in *. rewrite firstn_length. lia. Qed.
+
+Lemma nlen_tbl_of l : nlen (tbl_of l) = nlen l.
+Proof.
+  unfold tbl_of, nlen. generalize 0. induction l as [|x l IH]; intros i; cbn; [reflexivity|].
+  specialize (IH (i + 1)). lia.
+Qed.
+
+Lemma replay_update stored l ns r i rest : i < nlen l ->
+  store_replay stored (tbl_of l) l ns (Update r i :: rest) None =
+  if mem r stored then store_replay stored (tbl_of (set_root l i r)) (set_root l i r) ns rest None
   else Err EOther.
 Proof.
   intros H. cbn [store_replay mbind stmt]. unfold update_sector.
@@ -49,9 +68,9 @@ Proof.
   rewrite N.eqb_refl; cbn [negb]. rewrite tset_of by exact H. reflexivity.
 Qed.
 
-Lemma replay_swap stored l a0 b0 rest : a0 < nlen l -> b0 < nlen l ->
-  store_replay stored (tbl_of l) l (Swap a0 b0 :: rest) None =
-  store_replay stored (tbl_of (swap_roots l a0 b0)) (swap_roots l a0 b0) rest None.
+Lemma replay_swap stored l ns a0 b0 rest : a0 < nlen l -> b0 < nlen l ->
+  store_replay stored (tbl_of l) l ns (Swap a0 b0 :: rest) None =
+  store_replay stored (tbl_of (swap_roots l a0 b0)) (swap_roots l a0 b0) ns rest None.
 Proof.
   intros Ha Hb. cbn [store_replay mbind stmt].
   set (a := if b0 <? a0 then b0 else a0). set (b := if b0 <? a0 then a0 else b0).
@@ -70,47 +89,59 @@ Proof.
     fold (swap_roots l a b). rewrite Hsw. reflexivity.
 Qed.
 
-(** * Store.ReviseContract's replay yields exactly the fold of the accepted actions *)
+(** * Store.ReviseContract's replay yields exactly the fold of the accepted actions (and keeps
+   the contract-sector counter in step with the list length; no underflow panic as long as
+   the counter is at least the length of the list) *)
 
-Lemma replay_char stored : forall acts l l',
-  fold_upd l acts = Ok l' ->
-  store_replay stored (tbl_of l) l acts None =
-  if acts_stored stored acts then Ok (tbl_of l', None) else Err EOther.
+Lemma replay_char stored : forall acts l l' ns,
+  fold_upd l acts = Ok l' -> nlen l <= ns ->
+  store_replay stored (tbl_of l) l ns acts None =
+  if acts_stored stored acts then Ok ((tbl_of l', ns + nlen l' - nlen l), None) else Err EOther.
 Proof.
-  induction acts as [|a rest IH]; intros l l' H.
-  - cbn in H; injection H as <-. reflexivity.
+  induction acts as [|a rest IH]; intros l l' ns H Hns.
+  - cbn in H; injection H as <-. cbn [store_replay acts_stored forallb ret].
+    replace (ns + nlen l - nlen l) with ns by lia. reflexivity.
   - cbn [fold_upd bind] in H. unfold upd_apply in H.
     destruct (upd_check l a) eqn:C; [|discriminate]. cbn [bind] in H.
     cbn [acts_stored forallb]. fold (acts_stored stored rest).
     destruct a as [r|a0 b0|n|r i]; cbn [upd_check spec_apply] in *.
     + rewrite replay_append. unfold act_stored; cbn [act_root].
-      destruct (mem r stored); cbn [andb]; [now apply IH|reflexivity].
+      destruct (mem r stored); cbn [andb]; [|reflexivity].
+      rewrite (IH _ _ _ H) by (rewrite nlen_app; cbn; lia).
+      destruct (acts_stored stored rest); [|reflexivity]. rewrite nlen_app.
+      replace (ns + 1 + nlen l' - (nlen l + nlen [r])) with (ns + nlen l' - nlen l) by (cbn; lia). reflexivity.
     + apply andb_true_iff in C as [Ca Cb].
-      rewrite replay_swap by lia. unfold act_stored; cbn [act_root andb]. now apply IH.
-    + rewrite replay_trim by lia. unfold act_stored; cbn [act_root andb]. now apply IH.
+      rewrite replay_swap by lia. unfold act_stored; cbn [act_root andb].
+      rewrite (IH _ _ _ H) by (rewrite nlen_swap_roots; lia). now rewrite nlen_swap_roots.
+    + rewrite replay_trim by lia. unfold act_stored; cbn [act_root andb].
+      rewrite (IH _ _ _ H) by (rewrite nlen_trim_roots; lia).
+      destruct (acts_stored stored rest); [|reflexivity]. rewrite nlen_trim_roots by lia.
+      replace (ns - n + nlen l' - (nlen l - n)) with (ns + nlen l' - nlen l) by lia. reflexivity.
     + rewrite replay_update by lia. unfold act_stored; cbn [act_root].
-      destruct (mem r stored); cbn [andb]; [now apply IH|reflexivity].
+      destruct (mem r stored); cbn [andb]; [|reflexivity].
+      rewrite (IH _ _ _ H) by (rewrite nlen_set_root; lia). now rewrite nlen_set_root.
 Qed.
 
-(* accepted list ⇒ the table afterwards is exactly the fold *)
-Lemma replay_refines_list stored acts l l' :
-  fold_upd l acts = Ok l' -> acts_stored stored acts = true ->
-  store_replay stored (tbl_of l) l acts None = Ok (tbl_of l', None).
-Proof. intros H S; rewrite (replay_char stored acts l l' H), S; reflexivity. Qed.
+(* accepted list => the table afterwards is exactly the fold *)
+Lemma replay_refines_list stored acts l l' ns :
+  fold_upd l acts = Ok l' -> nlen l <= ns -> acts_stored stored acts = true ->
+  store_replay stored (tbl_of l) l ns acts None = Ok ((tbl_of l', ns + nlen l' - nlen l), None).
+Proof. intros H Hn S; rewrite (replay_char stored acts l l' ns H Hn), S; reflexivity. Qed.
 
-Lemma replay_ok_inv stored acts l l' t k :
-  fold_upd l acts = Ok l' ->
-  store_replay stored (tbl_of l) l acts None = Ok (t, k) -> t = tbl_of l'.
+Lemma replay_ok_inv stored acts l l' ns t ns' k :
+  fold_upd l acts = Ok l' -> nlen l <= ns ->
+  store_replay stored (tbl_of l) l ns acts None = Ok ((t, ns'), k) ->
+  t = tbl_of l' /\ ns' = ns + nlen l' - nlen l.
 Proof.
-  intros H R; rewrite (replay_char stored acts l l' H) in R.
-  destruct (acts_stored stored acts); [now injection R as <- _|discriminate].
+  intros H Hn R; rewrite (replay_char stored acts l l' ns H Hn) in R.
+  destruct (acts_stored stored acts); [now injection R as <- <- _|discriminate].
 Qed.
 
 (* a missing stored sector makes the whole commit fail *)
-Lemma replay_missing stored acts l l' :
-  fold_upd l acts = Ok l' -> acts_stored stored acts = false ->
-  store_replay stored (tbl_of l) l acts None = Err EOther.
-Proof. intros H S; rewrite (replay_char stored acts l l' H), S; reflexivity. Qed.
+Lemma replay_missing stored acts l l' ns :
+  fold_upd l acts = Ok l' -> nlen l <= ns -> acts_stored stored acts = false ->
+  store_replay stored (tbl_of l) l ns acts None = Err EOther.
+Proof. intros H Hn S; rewrite (replay_char stored acts l l' ns H Hn), S; reflexivity. Qed.
 
 (** * updateV2ContractSectors yields exactly the new list *)
 
@@ -169,41 +200,39 @@ Proof.
     rewrite v2_upserts_cons, Sr, orb_true_r. now apply IH.
 Qed.
 
-Lemma v2_diff_unfold stored old new :
-  v2_diff stored (tbl_of old) old new None =
+Lemma v2_diff_char stored old new ns : nlen old <= ns ->
+  v2_diff stored (tbl_of old) old new ns None =
   match v2_upserts stored (tbl_of old) 0 old new None with
-  | Ok (t', None) => Ok (if nlen new <? nlen old then tcut (nlen new) t' else t', None)
-  | Ok (t', Some k) => v2_diff stored (tbl_of old) old new None
+  | Ok _ => Ok ((tbl_of new, ns + nlen new - nlen old), None)
   | Err e => Err e
   | Panic => Panic
   end.
 Proof.
-  unfold v2_diff at 1, mbind. cbn [stmt].
-  destruct (v2_upserts stored (tbl_of old) 0 old new None) as [[t' [k|]]|e|] eqn:E; try reflexivity.
-  - unfold v2_diff, mbind. cbn [stmt]. rewrite E. reflexivity.
-  - destruct (nlen new <? nlen old); reflexivity.
-Qed.
-
-Lemma v2_diff_ok_inv stored old new t k :
-  v2_diff stored (tbl_of old) old new None = Ok (t, k) -> t = tbl_of new /\ k = None.
-Proof.
-  rewrite v2_diff_unfold.
-  destruct (v2_upserts stored (tbl_of old) 0 old new None) as [[t' k']| |] eqn:E; try discriminate.
+  intros Hn. unfold v2_diff, mbind. cbn [stmt].
+  destruct (v2_upserts stored (tbl_of old) 0 old new None) as [[t' k']|e|] eqn:E; try reflexivity.
   apply (v2_upserts_char stored new [] old) in E. destruct E as [-> ->]. cbn [app].
-  intros [= <- <-]. split; [|reflexivity].
-  destruct (nlen new <? nlen old) eqn:L.
-  - apply tcut_of_app.
-  - rewrite skipn_all2 by (unfold nlen in L; lia). now rewrite app_nil_r.
+  destruct (nlen new <? nlen old) eqn:L; cbn [stmt ret lift].
+  - rewrite dec_stat_ok by lia. rewrite tcut_of_app.
+    replace (ns - (nlen old - nlen new)) with (ns + nlen new - nlen old) by lia. reflexivity.
+  - rewrite skipn_all2 by (unfold nlen in L; lia). rewrite app_nil_r.
+    replace (ns + (nlen new - nlen old)) with (ns + nlen new - nlen old) by lia. reflexivity.
 Qed.
 
-Lemma v2_diff_correct stored old new :
-  all_stored stored new = true ->
-  v2_diff stored (tbl_of old) old new None = Ok (tbl_of new, None).
+Lemma v2_diff_ok_inv stored old new ns t ns' k : nlen old <= ns ->
+  v2_diff stored (tbl_of old) old new ns None = Ok ((t, ns'), k) ->
+  t = tbl_of new /\ ns' = ns + nlen new - nlen old /\ k = None.
 Proof.
-  intros S. destruct (v2_upserts_ok stored new [] old S) as (t & Ht).
-  cbn [app nlen length N.of_nat] in Ht.
-  pose proof (v2_diff_unfold stored old new) as U. rewrite Ht in U.
-  pose proof (v2_diff_ok_inv _ _ _ _ _ U) as [E _]. now rewrite E in U.
+  intros Hn. rewrite v2_diff_char by exact Hn.
+  destruct (v2_upserts stored (tbl_of old) 0 old new None) as [[t' k']| |]; try discriminate.
+  now intros [= <- <- <-].
+Qed.
+
+Lemma v2_diff_correct stored old new ns : nlen old <= ns ->
+  all_stored stored new = true ->
+  v2_diff stored (tbl_of old) old new ns None = Ok ((tbl_of new, ns + nlen new - nlen old), None).
+Proof.
+  intros Hn S. destruct (v2_upserts_ok stored new [] old S) as (t & Ht).
+  cbn [app nlen length N.of_nat] in Ht. rewrite v2_diff_char by exact Hn. now rewrite Ht.
 Qed.
 
 (** * injected failures *)
@@ -219,9 +248,9 @@ Ltac fok_tac :=
       | |- fok (match ?x with _ => _ end) => destruct x
       end ].
 
-Lemma fok_store_replay stored : forall acts t roots, fok (store_replay stored t roots acts).
+Lemma fok_store_replay stored : forall acts t roots ns, fok (store_replay stored t roots ns acts).
 Proof.
-  induction acts as [|a rest IH]; intros t roots; cbn [store_replay]; [apply fok_ret|].
+  induction acts as [|a rest IH]; intros t roots ns; cbn [store_replay]; [apply fok_ret|].
   apply fok_bind; [apply fok_stmt|intros _].
   destruct a; fok_tac; apply IH.
 Qed.
@@ -232,7 +261,7 @@ Proof.
   fok_tac; apply IH.
 Qed.
 
-Lemma fok_v2_diff stored t old new : fok (v2_diff stored t old new).
+Lemma fok_v2_diff stored t old new ns : fok (v2_diff stored t old new ns).
 Proof. unfold v2_diff. pose proof (fok_v2_upserts stored new t 0 old). fok_tac. Qed.
 
 Lemma fok_store_add1 d id c : fok (store_add1 d id c).
